@@ -5,6 +5,7 @@ package props
 
 import (
 	"errors"
+	"fmt"
 	"math"
 	"math/rand"
 	"reflect"
@@ -572,6 +573,56 @@ func c11NormEq(a, b reflect.Value) bool {
 		return a.String() == b.String()
 	}
 	panic("c11NormEq: unhandled kind " + t.String())
+}
+
+// c11DiffPath returns the path of the first difference found by c11NormEq ("" if equal).
+func c11DiffPath(a, b reflect.Value, path string) string {
+	if c11NormEq(a, b) {
+		return ""
+	}
+	if a.Type() != b.Type() {
+		return path + " (types differ)"
+	}
+	t := a.Type()
+	switch t.Kind() {
+	case reflect.Ptr, reflect.Interface:
+		if a.IsNil() || b.IsNil() || t == c11tError {
+			return path
+		}
+		ae, be := a.Elem(), b.Elem()
+		if t.Kind() == reflect.Interface {
+			if ae.Type() != be.Type() {
+				return path + " (dynamic types differ)"
+			}
+			if ae.Kind() == reflect.Ptr {
+				return c11DiffPath(ae.Elem(), be.Elem(), path)
+			}
+			return path
+		}
+		return c11DiffPath(ae, be, path)
+	case reflect.Slice, reflect.Array:
+		if a.Len() != b.Len() {
+			return path + fmt.Sprintf(" (len %d vs %d)", a.Len(), b.Len())
+		}
+		for i := 0; i < a.Len(); i++ {
+			if d := c11DiffPath(a.Index(i), b.Index(i), fmt.Sprintf("%s[%d]", path, i)); d != "" {
+				return d
+			}
+		}
+	case reflect.Struct:
+		if t == c11tTime || t.ConvertibleTo(c11tTime) {
+			return path
+		}
+		for i := 0; i < t.NumField(); i++ {
+			if !t.Field(i).IsExported() {
+				continue
+			}
+			if d := c11DiffPath(a.Field(i), b.Field(i), path+"."+t.Field(i).Name); d != "" {
+				return d
+			}
+		}
+	}
+	return path
 }
 
 // c11DeepCopy copies src into dst (both addressable, same type) without sharing
